@@ -206,9 +206,9 @@ def reset (m : Mach U) : Mach U :=
   let (root, w) := m.root.exit w
   let w := { w.clearTargets with previous := [] }
   let root := root.cleared
-  let w := w.snapshot root false false
+  let w := w.snapshot root true false
   let (root, w) := root.request { kind := .change, index := none } w
-  let (root, w) := root.enter w
+  let (root, w) := root.enter (w.snapshot root false false)
   ({ m with root := root, w := w }).updateActivity
 
 /-- `RV_::save`: the activity bit, then `deepSaveActive`. -/
